@@ -186,7 +186,7 @@ def applyStructural (o : OpSpec) (args : List Val) : Except ParseErr Val :=
   | "~", .prefix, _, [x] => .ok x
   | "~", .infix, .lastIsSquare, [l, r] =>
     match l with
-    | .struct _ => .error (.syntax "structured lhs in a multistage formula")
+    | .struct _ => .error (.internal "NotImplementedError")
     | .tuple _ => .error (.internal "TypeError")
     | .set ts =>
       let hats : List Term := ts.map (fun t => [Factor.mk (t.repr ++ "_hat") .lookup])
